@@ -593,3 +593,277 @@ def layout_tasks(prefix="C01/"):
         else:
             ts.append(LayoutTask(cls, None, prefix))
     return ts
+
+
+# ---------------------------------------------------------------------------------------------
+# O6: service primitive -> PDU -> bytes -> PDU -> primitive preserves every transmitted parameter
+# ---------------------------------------------------------------------------------------------
+PRIM = "pynetdicom.pdu_primitives"
+PRES = "pynetdicom.presentation"
+# parameters PS3.8 (7.1.1, Annex D) transmits, per user-information primitive
+UI_PARAMS = {
+    "MaximumLengthNotification": ["maximum_length_received"],
+    "ImplementationClassUIDNotification": ["implementation_class_uid"],
+    "ImplementationVersionNameNotification": ["implementation_version_name"],
+    "AsynchronousOperationsWindowNegotiation": ["maximum_number_operations_invoked", "maximum_number_operations_performed"],
+    "SCP_SCU_RoleSelectionNegotiation": ["sop_class_uid", "scu_role", "scp_role"],
+    "SOPClassExtendedNegotiation": ["sop_class_uid", "service_class_application_information"],
+    "SOPClassCommonExtendedNegotiation": ["sop_class_uid", "service_class_uid", "related_general_sop_class_identification"],
+    "UserIdentityNegotiation/rq": ["user_identity_type", "positive_response_requested", "primary_field", "secondary_field"],
+    "UserIdentityNegotiation/ac": ["server_response"],
+}
+
+
+def mk_ui_prim(I, kind, tag):
+    """a well-formed user-information primitive, parameters set through the REAL setters; returns (obj, {param: value})"""
+    cls = kind.split("/")[0]
+    p = new(I, PRIM, cls)
+    v = {}
+    if cls == "MaximumLengthNotification":
+        v["maximum_length_received"] = sym_int(I, f"{tag}.max", 0, 2 ** 32 - 1)
+    elif cls == "ImplementationClassUIDNotification":
+        v["implementation_class_uid"] = sym_uid(I, f"{tag}.uid")
+    elif cls == "ImplementationVersionNameNotification":
+        v["implementation_version_name"] = sym_title(I, f"{tag}.name")
+    elif cls == "AsynchronousOperationsWindowNegotiation":
+        v["maximum_number_operations_invoked"] = sym_int(I, f"{tag}.inv", 0, 65535)
+        v["maximum_number_operations_performed"] = sym_int(I, f"{tag}.perf", 0, 65535)
+    elif cls == "SCP_SCU_RoleSelectionNegotiation":
+        v["sop_class_uid"] = sym_uid(I, f"{tag}.uid")
+        scu, scp = [(True, True), (True, False), (False, True)][I.choose(3, "roles")]
+        v["scu_role"], v["scp_role"] = scu, scp
+    elif cls == "SOPClassExtendedNegotiation":
+        v["sop_class_uid"] = sym_uid(I, f"{tag}.uid")
+        v["service_class_application_information"] = sym_bytes(I, f"{tag}.info", 0, 60000)
+    elif cls == "SOPClassCommonExtendedNegotiation":
+        v["sop_class_uid"] = sym_uid(I, f"{tag}.sop")
+        v["service_class_uid"] = sym_uid(I, f"{tag}.svc")
+        v["related_general_sop_class_identification"] = [sym_uid(I, f"{tag}.rel{i}") for i in range(I.choose(3, "nrel"))]
+    elif kind == "UserIdentityNegotiation/rq":
+        t = sym_int(I, f"{tag}.type", 1, 5)
+        v["user_identity_type"] = t
+        v["positive_response_requested"] = [False, True][I.choose(2, "resp")]
+        v["primary_field"] = sym_bytes(I, f"{tag}.primary", 0, 30000)
+        sec = sym_bytes(I, f"{tag}.secondary", 0, 30000)
+        # PS3.7 D.3.3.7: the secondary field is only used with identity type 2 and is then non-empty
+        I.assume(z3.If(t.e == 2, _zi(sec.total()) >= 1, _zi(sec.total()) == 0))
+        v["secondary_field"] = sec
+    elif kind == "UserIdentityNegotiation/ac":
+        v["server_response"] = sym_bytes(I, f"{tag}.rsp", 0, 60000)
+    for k, val in v.items():
+        I.setattr(p, k, val)
+    return p, v
+
+
+def mk_pcontext(I, tag, nts, with_result=None):
+    c = new(I, PRES, "PresentationContext")
+    v = {"context_id": sym_int(I, f"{tag}.id", 1, 255), "abstract_syntax": sym_uid(I, f"{tag}.as"),
+         "transfer_syntax": [sym_uid(I, f"{tag}.ts{i}") for i in range(nts)]}
+    I.assume(v["context_id"].e % 2 == 1)
+    # the transfer syntaxes of one context are pairwise distinct (a context's transfer syntaxes form a set)
+    for a_ in range(nts):
+        for b_ in range(a_ + 1, nts):
+            I.assume(v["transfer_syntax"][a_].lb.to_z3() != v["transfer_syntax"][b_].lb.to_z3())
+    c.fields.update(_context_id=v["context_id"], _abstract_syntax=v["abstract_syntax"], _transfer_syntax=list(v["transfer_syntax"]))
+    if with_result is not None:
+        v["result"] = with_result
+        c.fields["result"] = with_result
+    return c, v
+
+
+def cmp_param(I, got, want):
+    if isinstance(want, list):
+        if not isinstance(got, list) or len(got) != len(want):
+            return False
+        parts = [values_equal(I, g, w) for g, w in zip(got, want)]
+        if any(p is False for p in parts):
+            return False
+        sym = [p for p in parts if not isinstance(p, bool)]
+        return z3.And(sym) if sym else True
+    return values_equal(I, got, want)
+
+
+class PrimTask(Task):
+    """one service primitive kind through from_primitive -> encode -> decode -> to_primitive"""
+
+    def __init__(self, kind, shape=None, prefix="C01/"):
+        self.kind, self.shape, self.prefix = kind, shape, prefix
+        self.name = f"primitive/{kind}" + (f"/{shape}" if shape is not None else "")
+        self.functions = []
+
+    def config(self, repo):
+        return codec_config(self.prefix)
+
+    def chain(self, I, P, pdu_cls, prim, mod=PDUM):
+        """returns the primitive obtained after the full chain, or None (obligation recorded)"""
+        try:
+            pdu = I.instantiate(I.repo.cls(f"{mod}:{pdu_cls}"), [], {})
+            I.call_value(I.getattr(pdu, "from_primitive"), [prim], {})
+            enc = I.call_value(I.getattr(pdu, "encode"), [], {})
+            new_pdu = I.instantiate(I.repo.cls(f"{mod}:{pdu_cls}"), [], {})
+            I.call_value(I.getattr(new_pdu, "decode"), [enc], {})
+            out = I.call_value(I.getattr(new_pdu, "to_primitive"), [], {})
+        except PyRaise as pr:
+            I.ob(f"{P}/chain:no-exception-for-well-formed-parameters", False, detail=repr(pr.exc))
+            return None, None
+        I.ob(f"{P}/chain:no-exception-for-well-formed-parameters", True)
+        return pdu, out
+
+    def body(self, I):
+        k = self.kind
+        P = f"{self.prefix}primitive:{k}"
+        if k in UI_PARAMS:
+            prim, v = mk_ui_prim(I, k, "p")
+            try:
+                item = I.call_value(I.getattr(prim, "from_primitive"), [], {})
+                enc = I.call_value(I.getattr(item, "encode"), [], {})
+                item2 = I.instantiate(item.cls, [], {})
+                I.call_value(I.getattr(item2, "decode"), [enc], {})
+                out = I.call_value(I.getattr(item2, "to_primitive"), [], {})
+            except PyRaise as pr:
+                I.ob(f"{P}/chain:no-exception-for-well-formed-parameters", False, detail=repr(pr.exc))
+                return
+            I.ob(f"{P}/chain:no-exception-for-well-formed-parameters", True)
+            I.ob(f"{P}/same-primitive-type", isinstance(out, Obj) and out.cls is prim.cls)
+            for name in UI_PARAMS[k]:
+                I.ob(f"{P}/parameter-{name}-preserved", cmp_param(I, I.getattr(out, name), v[name]), detail=name)
+            return
+        if k == "P_DATA":
+            n = self.shape
+            prim = new(I, PRIM, "P_DATA")
+            pdvs = [(sym_int(I, f"pdv{i}.ctx", 1, 255), sym_bytes(I, f"pdv{i}.data", 1, 2 ** 30)) for i in range(n)]
+            prim.fields["_presentation_data_value_list"] = [(c, d) for c, d in pdvs]
+            pdu, out = self.chain(I, P, "P_DATA_TF", prim)
+            if out is None:
+                return
+            items = pdu.fields.get("presentation_data_value_items")
+            I.ob(f"{P}/from_primitive:one-distinct-PDV-item-per-value-in-order",
+                 isinstance(items, list) and len(items) == n and len({id(x) for x in items}) == n)
+            got = I.getattr(out, "presentation_data_value_list")
+            ok = isinstance(got, list) and len(got) == n
+            I.ob(f"{P}/parameter-presentation_data_value_list-preserved",
+                 ok and _all([z3.And(_b(I.eq(g[0], c)), _b(values_equal(I, g[1], d))) for g, (c, d) in zip(got, pdvs)]))
+            return
+        if k == "A_ABORT":
+            prim = new(I, PRIM, "A_ABORT")
+            src = [0, 2][I.choose(2, "source")]
+            I.setattr(prim, "abort_source", src)
+            pdu, out = self.chain(I, P, "A_ABORT_RQ", prim)
+            if out is None:
+                return
+            # source 2 travels as a provider abort (A-P-ABORT, reason 0)
+            if src == 2:
+                I.ob(f"{P}/provider-source-arrives-as-A-P-ABORT", isinstance(out, Obj) and out.cls.name == "A_P_ABORT")
+            else:
+                I.ob(f"{P}/parameter-abort_source-preserved", isinstance(out, Obj) and out.cls.name == "A_ABORT" and
+                     I.getattr(out, "abort_source") == src)
+            return
+        if k == "A_P_ABORT":
+            prim = new(I, PRIM, "A_P_ABORT")
+            r = sym_int(I, "provider_reason", 0, 6)
+            I.assume(r.e != 3)
+            I.setattr(prim, "provider_reason", r)
+            pdu, out = self.chain(I, P, "A_ABORT_RQ", prim)
+            if out is None:
+                return
+            I.ob(f"{P}/parameter-provider_reason-preserved", isinstance(out, Obj) and out.cls.name == "A_P_ABORT" and
+                 _b(I.eq(I.getattr(out, "provider_reason"), r)))
+            return
+        if k in ("A_RELEASE/rq", "A_RELEASE/rp"):
+            prim = new(I, PRIM, "A_RELEASE")
+            if k.endswith("rp"):
+                I.setattr(prim, "result", "affirmative")
+            pdu, out = self.chain(I, P, "A_RELEASE_RQ" if k.endswith("rq") else "A_RELEASE_RP", prim)
+            if out is None:
+                return
+            I.ob(f"{P}/parameter-result-preserved", isinstance(out, Obj) and out.cls.name == "A_RELEASE" and
+                 I.getattr(out, "result") == (None if k.endswith("rq") else "affirmative"))
+            return
+        if k == "A_ASSOCIATE/rj":
+            prim = new(I, PRIM, "A_ASSOCIATE")
+            res, src = sym_int(I, "result", 1, 2), sym_int(I, "source", 1, 3)
+            rsn = sym_int(I, "reason", 1, 7)
+            I.assume(z3.Or(z3.And(src.e == 1, z3.Or(rsn.e == 1, rsn.e == 2, rsn.e == 3, rsn.e == 7)), z3.And(src.e != 1, rsn.e <= 2)))
+            for n_, v_ in (("result", res), ("result_source", src), ("diagnostic", rsn)):
+                I.setattr(prim, n_, v_)
+            pdu, out = self.chain(I, P, "A_ASSOCIATE_RJ", prim)
+            if out is None:
+                return
+            for n_, v_ in (("result", res), ("result_source", src), ("diagnostic", rsn)):
+                I.ob(f"{P}/parameter-{n_}-preserved", _b(I.eq(I.getattr(out, n_), v_)))
+            return
+        if k in ("A_ASSOCIATE/rq", "A_ASSOCIATE/ac"):
+            npc, nts, ui_kinds = self.shape
+            prim = new(I, PRIM, "A_ASSOCIATE")
+            calling, called, app = sym_title(I, "calling"), sym_title(I, "called"), sym_uid(I, "app")
+            prim.fields.update(_calling_ae_title=calling, _called_ae_title=called, _application_context_name=app)
+            is_rq = k.endswith("rq")
+            pcs = [mk_pcontext(I, f"pc{i}", nts if is_rq else 1, None if is_rq else [0, 3, 4][I.choose(3, "result")]) for i in range(npc)]
+            prim.fields["_presentation_context_definition_list" if is_rq else "_presentation_context_definition_results_list"] = [c for c, _ in pcs]
+            uis = [mk_ui_prim(I, uk, f"ui{i}") for i, uk in enumerate(ui_kinds)]
+            prim.fields["_user_information"] = [u for u, _ in uis]
+            if not is_rq:
+                prim.fields["_result"] = 0
+            pdu, out = self.chain(I, P, "A_ASSOCIATE_RQ" if is_rq else "A_ASSOCIATE_AC", prim)
+            if out is None:
+                return
+            I.ob(f"{P}/parameter-calling_ae_title-preserved", _b(values_equal(I, I.getattr(out, "calling_ae_title"), calling)))
+            I.ob(f"{P}/parameter-called_ae_title-preserved", _b(values_equal(I, I.getattr(out, "called_ae_title"), called)))
+            I.ob(f"{P}/parameter-application_context_name-preserved", _b(values_equal(I, I.getattr(out, "application_context_name"), app)))
+            got = I.getattr(out, "presentation_context_definition_list" if is_rq else "presentation_context_definition_results_list")
+            ok = isinstance(got, list) and len(got) == npc
+            I.ob(f"{P}/presentation-contexts:one-per-context-in-order", ok)
+            if ok:
+                for g_, (c, v) in zip(got, pcs):
+                    I.ob(f"{P}/presentation-context-id-preserved", _b(I.eq(I.getattr(g_, "context_id"), v["context_id"])))
+                    if is_rq:
+                        I.ob(f"{P}/presentation-context-abstract-syntax-preserved",
+                             _b(values_equal(I, I.getattr(g_, "abstract_syntax"), v["abstract_syntax"])))
+                        I.ob(f"{P}/presentation-context-transfer-syntaxes-preserved",
+                             cmp_param(I, I.getattr(g_, "transfer_syntax"), v["transfer_syntax"]))
+                    else:
+                        I.ob(f"{P}/presentation-context-result-preserved", _b(I.eq(I.getattr(g_, "result"), v["result"])))
+                        I.ob(f"{P}/presentation-context-transfer-syntax-preserved",
+                             cmp_param(I, I.getattr(g_, "transfer_syntax"), v["transfer_syntax"][:1]))
+            gui = I.getattr(out, "user_information")
+            ok = isinstance(gui, list) and len(gui) == len(uis) and all(isinstance(x, Obj) and x.cls is u.cls for x, (u, _) in zip(gui, uis))
+            I.ob(f"{P}/user-information:same-items-in-order", ok)
+            if ok:
+                for x, (u, v), uk in zip(gui, uis, ui_kinds):
+                    for name in UI_PARAMS[uk]:
+                        I.ob(f"{P}/user-information-{uk.split('/')[0]}.{name}-preserved", cmp_param(I, I.getattr(x, name), v[name]))
+            if not is_rq:
+                I.ob(f"{P}/accept-is-result-0", _b(I.eq(I.getattr(out, "result"), 0)))
+            return
+        raise Unsupported(k)
+
+
+def _all(parts):
+    if any(p is False for p in parts):
+        return False
+    sym = [p for p in parts if not isinstance(p, bool)]
+    return z3.And(sym) if sym else True
+
+
+def _b(t):
+    return z3.BoolVal(t) if isinstance(t, bool) else t
+
+
+def primitive_tasks(prefix="C01/"):
+    ts = [PrimTask(k, None, prefix) for k in UI_PARAMS]
+    ts += [PrimTask("P_DATA", n, prefix) for n in (0, 1, 2, 3)]
+    ts += [PrimTask(k, None, prefix) for k in ("A_ABORT", "A_P_ABORT", "A_RELEASE/rq", "A_RELEASE/rp", "A_ASSOCIATE/rj")]
+    base = ["MaximumLengthNotification", "ImplementationClassUIDNotification"]
+    rq_extra = [[], ["ImplementationVersionNameNotification"], ["AsynchronousOperationsWindowNegotiation"],
+                ["SCP_SCU_RoleSelectionNegotiation", "SCP_SCU_RoleSelectionNegotiation"], ["SOPClassExtendedNegotiation"],
+                ["SOPClassCommonExtendedNegotiation"], ["UserIdentityNegotiation/rq"]]
+    for npc, nts in ((0, 1), (1, 1), (1, 2), (2, 1)):
+        ts.append(PrimTask("A_ASSOCIATE/rq", (npc, nts, tuple(base)), prefix))
+    for npc in (0, 1, 2):
+        ts.append(PrimTask("A_ASSOCIATE/ac", (npc, 1, tuple(base)), prefix))
+    for ex in rq_extra[1:]:
+        ts.append(PrimTask("A_ASSOCIATE/rq", (1, 1, tuple(base + ex)), prefix))
+    for ex in (["ImplementationVersionNameNotification"], ["SCP_SCU_RoleSelectionNegotiation"], ["UserIdentityNegotiation/ac"],
+               ["AsynchronousOperationsWindowNegotiation"]):
+        ts.append(PrimTask("A_ASSOCIATE/ac", (1, 1, tuple(base + ex)), prefix))
+    return ts
